@@ -15,8 +15,9 @@ Vocabulary (model file and `Lemmas/Api.lean`):
   erased (keys, their order, array lengths); `Slot.path s = [plural, id, variable, period]`;
 * `engineAt w s` — the engine's value for that entity instance, variable and period;
   `render t v` — that value as the handler writes it for a variable of value type `t`;
-* `Holds w t x` — expectation `x` of test `t` holds of the engine `w` (period given, vector
-  computed, instance found, margins defined, shapes broadcast, every pair `Within` the margins);
+* `Holds w t x` — expectation `x` of test `t` holds of the engine `w`: a named instance exists and
+  either the runner's options leave the variable out (`shouldIgnore`) or `HoldsValue`: period given,
+  vector computed, margins defined, shapes broadcast, every pair `Within` the margins;
   `InMargins abs rel e a` — the statement's "within the stated absolute or relative margin".
 -/
 namespace OFCore
@@ -385,7 +386,7 @@ theorem C20_verdict_margins (abs rel : Option Rat) (e a : Rat) :
     · rw [hn, decide_eq_false_iff_not, absQ_le_iff]; grind
 
 private def exTest (out : List (String × Y)) (abs : Option Rat) : YTest :=
-  ⟨some "2018-01", ⟨some abs, []⟩, ⟨some none, []⟩, some out⟩
+  { period := some "2018-01", absM := ⟨some abs, []⟩, relM := ⟨some none, []⟩, output := some out }
 
 example : verdict (.ok exSim) (exTest [("salary", .list [.num 2, .int 0])] (some (1/2))) = true ∧          -- at the margin
     verdict (.ok exSim) (exTest [("salary", .list [.num (33/16), .int 0])] (some (1/2))) = false ∧           -- just beyond
@@ -393,7 +394,14 @@ example : verdict (.ok exSim) (exTest [("salary", .list [.num 2, .int 0])] (some
     verdict (.ok exSim) (exTest [("persons", .map [("b", .map [("status", .leaf (.str "tenant"))])])] none) = true ∧
     verdict (.ok exSim) (exTest [("person", .map [("birth", .list [.date ⟨1980, 5, 6⟩, .str "1970-01-01"])])] none) = true ∧
     verdict (.ok exSim) (exTest [("nope", .leaf (.int 1))] none) = false ∧
-    verdict (.error "refused") (exTest [] none) = false := by decide +kernel
+    verdict (.error "refused") (exTest [] none) = false ∧
+    -- a value beyond the margin of a variable the runner is told to ignore does not fail the test …
+    verdict (.ok exSim) { exTest [("salary", .list [.num 9, .int 0])] none with ignore := some ["salary"] } = true ∧
+    verdict (.ok exSim) { exTest [("salary", .list [.num 9, .int 0])] none with only := some ["status"] } = true ∧
+    verdict (.ok exSim) { exTest [("salary", .list [.num 9, .int 0])] none with only := some ["salary"] } = false ∧
+    -- … but an unknown instance still does
+    verdict (.ok exSim) { exTest [("persons", .map [("zz", .map [("salary", .leaf (.int 0))])])] none with
+      ignore := some ["salary"] } = false := by decide +kernel
 
 /-- **The three layouts of the same expectations give the same verdict.** For a variable `var` of
 an entity with singular key `sg` and plural key `pl` (neither is a variable name), a population
@@ -428,35 +436,47 @@ theorem C20_layouts_agree (w : Sim) (t : YTest) (var sg pl : String) (ty : VType
     have hfun : checkExpectation w { t with output := some (outByInstance pl var pw ids es) } =
         checkExpectation w t := funext (fun x => rfl)
     rw [hfun, hck]
+    -- a variable left out by the options passes in every layout
+    cases hig : shouldIgnore t var with
+    | true =>
+      rw [instExps_all_true_of_ignored w t pl var _ hig ids es 0 (fun k h => by simpa using hidx k h)]
+      simp [checkExpectation, instKnown, hig]
+    | false =>
     -- the whole-vector comparison, case by case
+    have hkv : ∀ per' tg, checkExpectation w t ⟨none, none, var, per', tg⟩ = checkValue w t ⟨none, none, var, per', tg⟩ :=
+      fun _ _ => checkExpectation_eq_value rfl hig
+    rw [hkv]
     cases hper : orPeriod pw t.period with
     | none =>
-      rw [instExps_all_false_of w t pl var none (fun x hx hp => by simp [checkExpectation, hp]) ids es hlen hne]
-      simp [checkExpectation]
+      rw [instExps_all_false_of w t pl var none (fun x hx hp =>
+        checkExpectation_eq_false_of (by rw [hx]; exact hig) (by simp [checkValue, hp])) ids es hlen hne]
+      simp [checkValue]
     | some per =>
       cases hc : w.calcv var per with
       | error e =>
-        rw [instExps_all_false_of w t pl var (some per)
-          (fun x hx hp => by simp [checkExpectation, hp, hx, hvar, hc]) ids es hlen hne]
-        simp [checkExpectation, hvar, hc]
+        rw [instExps_all_false_of w t pl var (some per) (fun x hx hp =>
+          checkExpectation_eq_false_of (by rw [hx]; exact hig) (by simp [checkValue, hp, hx, hvar, hc])) ids es hlen hne]
+        simp [checkValue, hvar, hc]
       | ok vec =>
         have hvl := hvec per vec hc
         cases ha : marginFor t.absM var with
         | error e =>
-          rw [instExps_all_false_of w t pl var (some per) (fun x hx hp => by
-            cases hs : selectInst w x vec <;> simp [checkExpectation, hp, hx, hvar, hc, ha, hs]) ids es hlen hne]
-          simp [checkExpectation, hvar, hc, ha, selectInst]
+          rw [instExps_all_false_of w t pl var (some per) (fun x hx hp =>
+            checkExpectation_eq_false_of (by rw [hx]; exact hig) (by
+              cases hs : selectInst w x vec <;> simp [checkValue, hp, hx, hvar, hc, ha, hs])) ids es hlen hne]
+          simp [checkValue, hvar, hc, ha, selectInst]
         | ok a =>
           cases hr : marginFor t.relM var with
           | error e =>
-            rw [instExps_all_false_of w t pl var (some per) (fun x hx hp => by
-              cases hs : selectInst w x vec <;> simp [checkExpectation, hp, hx, hvar, hc, ha, hr, hs]) ids es hlen hne]
-            simp [checkExpectation, hvar, hc, ha, hr, selectInst]
+            rw [instExps_all_false_of w t pl var (some per) (fun x hx hp =>
+              checkExpectation_eq_false_of (by rw [hx]; exact hig) (by
+                cases hs : selectInst w x vec <;> simp [checkValue, hp, hx, hvar, hc, ha, hr, hs])) ids es hlen hne]
+            simp [checkValue, hvar, hc, ha, hr, selectInst]
           | ok r =>
-            rw [instExps_all w t pl var per ty vec a r (cmpMode ty (.list es)) hvar hc ha hr ids es 0 hlen
+            rw [instExps_all w t pl var per ty vec a r (cmpMode ty (.list es)) hvar hc ha hr hig ids es 0 hlen
               (by omega) (fun k h => by simpa using hidx k h)
               (fun e he => cmpMode_scalar_of_list ty hhom he)]
-            simp only [checkExpectation, hvar, hc, selectInst, ha, hr, assertNear, pairUp, List.drop_zero]
+            simp only [checkValue, hvar, hc, selectInst, ha, hr, assertNear, pairUp, List.drop_zero]
             rw [if_pos (by omega)]
 
 example : verdictSim exSim (exTest (outByVariable "status" none [.str "owner", .str "tenant"]) none) = true ∧
